@@ -279,7 +279,7 @@ def templates():
     for nm in ("remove_edges", "add_edges"):
         def f(g, pm, nm=nm):
             p = g.randint(2, max(2, pm))
-            return [dag(g, p), g.randint(0, 3)], {"random_state": g.choice([0, 1, 42, 7])}
+            return [dag(g, p), g.randint(0, 3)], {"random_state": g.choice([0, 1, 42, 7, None])}
         T[nm] = f
 
     @t("pdag_to_cpdag")
@@ -390,7 +390,7 @@ def templates():
         ratios = g.choice(RATIOS)
         if g.random() < 0.08:
             ratios = [0.3, 0.3]
-        return [data, ratios], {"random_state": g.choice([0, 1, 42])}
+        return [data, ratios], {"random_state": g.choice([0, 1, 42, None])}
 
     @t("sorted_tuple")
     def _(g, pm):
